@@ -12,7 +12,10 @@
    external inputs and both values of enforce_static_checks.  Raw handler results and raw
    external inputs include values that claim a label of their own without being a TypedValue
    ([RawClaim]: an ApprovalToken's integrity field, look-alike objects, dicts): the statements
-   hold for all of them, they take the port's label like any other raw value. *)
+   hold for all of them, they take the port's label like any other raw value.  A handler is any
+   function of its input row, so handlers that hand back a value they received (relays) or one
+   value under several keys / in several executions are among them; the model has no object
+   identities (the executor never asks for one), such a value is the [Lab] of its contents. *)
 From Coq Require Import ZArith List Bool Permutation.
 From Verif Require Import C16.Model C16.Proofs.
 Import ListNotations.
@@ -55,6 +58,39 @@ Theorem c16_mislabelled_output_rejected :
     exists e, out = Raised e /\ output_rejection e /\ wiring_error e = true.
 Proof. exact mislabelled_output_rejected_proof. Qed.
 Print Assumptions c16_mislabelled_output_rejected.
+
+(* _coerce_output judges a labelled handler output by its label and the declared port alone -- not by
+   where the value came from, nor by whether it has been looked at before: it is accepted exactly when
+   it carries the declared data type and integrity, and is then handed on as it is. *)
+Theorem c16_labelled_output_accepted_iff_exact :
+  forall t p,
+    (exact t p -> coerce_output (Lab t) p = inr t) /\
+    (~ exact t p -> coerce_output (Lab t) p = inl EOutType \/ coerce_output (Lab t) p = inl EOutInteg) /\
+    (forall t', coerce_output (Lab t) p = inr t' -> t' = t /\ exact t p).
+Proof. exact labelled_output_iff_exact. Qed.
+Print Assumptions c16_labelled_output_accepted_iff_exact.
+
+(* Relays.  An invoked handler hands back, under its declared output port [j] (declared [p]), the very
+   value [t] it received on its input port [q] (declared [pin]).  That value has the data type of [q]
+   and at least its integrity -- possibly more: an over-labelled external input, a downgrading wire.
+   Having been admitted at [q] counts for nothing at the output: unless [t] carries exactly the label
+   [p], execute raises a WiringError and produces no report; in particular when [p] is the very port
+   type of [q] and [t] is labelled above it.  A report is possible only when [t] is labelled exactly
+   [p], so only from an input port of the same data type whose integrity is at most that of [p]:
+   forwarding never passes a value on under a label other than its own. *)
+Theorem c16_forwarded_value_judged_by_its_label :
+  forall mods attempts handlers enforce ext out calls m r md h kv j p q pin t,
+    execute mods (build mods attempts) handlers enforce ext = (out, calls) ->
+    In (m, r) calls -> nth_error mods m = Some md -> handlers m = Some h -> h r = HRet kv ->
+    nth_error (m_out md) j = Some p -> lookup j kv = Some (Lab t) ->
+    nth_error r q = Some (Some t) -> nth_error (m_in md) q = Some pin ->
+    typed t pin /\
+    (~ exact t p \/ (p = pin /\ tv_il t <> snd pin) ->
+       exists e, out = Raised e /\ output_rejection e /\ wiring_error e = true) /\
+    (forall order runs, out = Report order runs ->
+       exact t p /\ fst pin = fst p /\ il_rank (snd pin) <= il_rank (snd p)).
+Proof. exact forwarded_value_proof. Qed.
+Print Assumptions c16_forwarded_value_judged_by_its_label.
 
 (* A successful execution runs every module exactly once (execution_order is a permutation
    of the module indices), every module after all modules wired into it, records the modules
